@@ -73,7 +73,7 @@ static void* do_alloc(int a, size_t n, size_t* eff) {
     case A_valloc: p = valloc(n); if (ADDR(p) % 4096) fail("valloc alignment"); break;
     case A_pvalloc: p = pvalloc(n); if (ADDR(p) % 4096) fail("pvalloc alignment"); *eff = (n + 4095) / 4096 * 4096; if (n == 0) *eff = 0; break;
     case A_reallocarray: p = reallocarray(nullptr, (n + 4) / 5, 5); *eff = (n + 4) / 5 * 5; break;
-    case A_strdup: case A_strndup: { size_t L = (n > 0 ? n - 1 : 0); char* s = (char*)malloc(L + 1); memset(s, 'x', L); s[L] = 0; p = (a == A_strdup ? strdup(s) : strndup(s, L + 10)); if (p && strcmp((char*)p, s) != 0) fail("strdup contents"); free(s); *eff = L + 1; break; }
+    case A_strdup: case A_strndup: { size_t L = (n > 0 ? n - 1 : 0); char* s = (char*)malloc(L + 1); memset(s, 'x', L); s[L] = 0; p = (a == A_strdup ? strdup(s) : strndup(s, (n % 3 == 0 ? (size_t)-1 : n % 3 == 1 ? L + 10 : L))); if (p && strcmp((char*)p, s) != 0) fail("strdup contents"); free(s); *eff = L + 1; break; }
     case A_getline: { FILE* f = tmpfile(); size_t L = (n > 2 ? n - 2 : 1); for (size_t i = 0; i < L; i++) fputc('y', f); fputc('\n', f); rewind(f); char* line = nullptr; size_t cap = 0; ssize_t got = getline(&line, &cap, f); fclose(f);
                       if (got != (ssize_t)L + 1) fail("getline length"); p = line; *eff = L + 2; n_internal++; break; }
     case A_asprintf: { size_t L = (n > 0 ? n - 1 : 0); char* s = nullptr; if (asprintf(&s, "%*s", (int)L, "") != (int)L) fail("asprintf length"); p = s; *eff = L + 1; n_internal++; break; }
